@@ -202,6 +202,8 @@ let verdict_names (v : n list) =
     | 5 -> "other-fabrics-affected"
     | 6 -> "request-served-on-stale-session"
     | 7 -> "stale-record-resumed"
+    | 8 -> "persisted-fabric-outlives-fabric"
+    | 9 -> "removed-incarnation-returns"
     | k -> "clause" ^ string_of_int k) v in
   String.concat "," (List.sort_uniq compare names)
 
@@ -243,7 +245,10 @@ let () =
         end else begin
           let f = split_on ' ' line in
           match List.hd f with
-          | "S" | "W" -> Printf.printf "%s %s %s\n" (List.hd f) (List.nth f 1) (run_s f)
+          | "S" | "W" ->
+            (* an unparsable case is reported as such (with its id), it does not stop the run *)
+            let out = (try run_s f with e -> "driver-error:" ^ Printexc.to_string e) in
+            Printf.printf "%s %s %s\n" (List.hd f) (try List.nth f 1 with _ -> "?") out
           | "H" -> Printf.printf "H %s maxfab=%s maxsess=%s maxrec=%s maxsub=%s\n" (List.nth f 1)
                      (s_of_n max_fabrics_n) (s_of_n max_sessions_n) (s_of_n max_records_n) (s_of_n max_subs_n)
           | _ -> ()
